@@ -491,6 +491,64 @@ pub fn extra_cases(id: &str, rep: &Reporter) -> Vec<Value> {
         }
         ran.push(case);
     }
+    if id == "C06" {
+        // an aborted, directly held command reports done as soon as - and not before - its
+        // already-emitted outputs have been taken
+        let case = json!({"engine": "extra", "case": "C06/aborted-command-with-pending-outputs: done exactly when the emitted outputs were taken"});
+        for which in 0..3 {
+            crate::build::clear_aborts();
+            let p = P::abortable(0, P::All(vec![P::Burst(S { id: 1, label: 1 }, S { id: 2, label: 2 }), P::Stream(S { id: 4, label: 4 })])).normalized();
+            let mut cmd = crate::build::build(&p);
+            let r = mc_kit::catch(|| {
+                // poll once: two marks and two requests are emitted; take only some of them
+                let mut problems = vec![];
+                let effects: Vec<_> = if which != 1 { cmd.effects().collect() } else { vec![] };
+                let events: Vec<_> = if which == 1 { cmd.events().collect() } else { vec![] };
+                crate::build::fire_abort(0);
+                if cmd.is_done() {
+                    problems.push(format!("variant {which}: is_done() is true while emitted outputs have not been taken"));
+                }
+                if !cmd.was_aborted() {
+                    problems.push("was_aborted() is false after abort".to_string());
+                }
+                let rest_effects: Vec<_> = cmd.effects().collect();
+                let rest_events: Vec<_> = cmd.events().collect();
+                if effects.len() + rest_effects.len() != 2 || events.len() + rest_events.len() != 2 {
+                    problems.push(format!(
+                        "variant {which}: outputs emitted before the abort were lost or new ones appeared: effects {}+{}, events {}+{}",
+                        effects.len(), rest_effects.len(), events.len(), rest_events.len()
+                    ));
+                }
+                if !cmd.is_done() {
+                    problems.push(format!("variant {which}: is_done() is false although every emitted output was taken"));
+                }
+                // late responses: accepted or FinishedMany, never a panic, never an output
+                for mut e in effects.into_iter().chain(rest_effects) {
+                    match &mut e {
+                        Effect::CapA(r) => {
+                            let _ = r.resolve(7);
+                        }
+                        Effect::CapB(r) => {
+                            let _ = r.resolve(crate::app::OpB::out(7));
+                        }
+                    }
+                }
+                if cmd.effects().count() + cmd.events().count() != 0 || !cmd.is_done() {
+                    problems.push(format!("variant {which}: a late response to aborted work had a visible consequence"));
+                }
+                problems
+            });
+            match r {
+                Ok(problems) => {
+                    for what in problems {
+                        rep.violation(Violation { key: "aborted-command/done-vs-pending-outputs".into(), what, replay: case.clone(), size: 1 });
+                    }
+                }
+                Err(p) => rep.violation(Violation { key: format!("panic/{}", p.key()), what: format!("{} at {}:{}", p.message, p.file, p.line), replay: case.clone(), size: 1 }),
+            }
+        }
+        ran.push(case);
+    }
     if id == "C07" {
         // extended atom: a task awaiting a FuturesUnordered of shell requests
         let case = json!({"engine": "extra", "case": "C07/futures-unordered: both requests of a FuturesUnordered dropped"});
